@@ -29,7 +29,7 @@ LEVEL_NOTE = ("Trusted: the structured model in this file (canonical rendering, 
 DESIGN_REF = "§5 C34"
 RULE = ("case = one structured version (round trips, every spelling) or one ordered pair of structured versions "
         "(classification, random spellings); distinct = hash of the structured value(s) + spelling; non-trivial = has a "
-        "pre-release part, an un-normalised spelling, or (pairs) differs from its partner in exactly the deciding component")
+        "pre-release part or an un-normalised spelling (round trips); the two versions differ or are spelled un-normalised (pairs)")
 REQUIRED_REACH = ["pep440_roundtrip_eval", "semver_roundtrip_eval", "classify_none_eval", "classify_grew_eval",
                   "classify_prerelease_only_eval", "unnormalised_spelling_eval", "model_vs_packaging_selfcheck"]
 ASSUMPTIONS = ["versions are release tuples (1-3 components for classification, exactly 3 for conversions) with an optional "
